@@ -132,9 +132,44 @@ adapt!(c14_adapt_d50_e_vonkries, D50, E, VonKries, "D50 -> E, von Kries");
 adapt!(c14_adapt_f2_a_scaling, F2, A, UnitMatrix, "F2 -> A, XYZ scaling");
 adapt!(c14_adapt_e_f2_bradford, E, F2, Bradford, "E -> F2, Bradford");
 
+macro_rules! adapt_explicit {
+    ($name:ident, $m:ty, $what:expr) => {
+        program!($name, "C14", "quick", sv,
+            "chromatic_adaptation::adaptation_matrix(Some(input_wp), Some(output_wp)) -> Xyz::normalize, diagonal_matrix, Matrix3::{then, convert} [chromatic_adaptation.rs, xyz.rs, matrix.rs]",
+            concat!($what, ", explicit (dynamic) white points that are NOT at unit luminance (Y = 0.5, 0.75, 0.4): adaptation between equal white points is the identity for all XYZ in the box (1e-6), the source white lands on the destination white's chromaticity at the source's luminance, adapting there and back is the identity (1e-6)"),
+        {
+            use palette::chromatic_adaptation::adaptation_matrix;
+            use palette::convert::Convert;
+            type M = $m;
+            let t6 = T::tol(1e-6, 1e-4);
+            let (x, y, z) = (T::var("x", 0.0, 1.1), T::var("y", 0.0, 1.0), T::var("z", 0.0, 1.2));
+            let c: Xyz<D65, T> = Xyz::new(x, y, z);
+            let wa: Xyz<D65, T> = Xyz::new(T::k(0.45), T::k(0.5), T::k(0.6));
+            let wb: Xyz<D50, T> = Xyz::new(T::k(0.7), T::k(0.75), T::k(0.5));
+            let wc: Xyz<D65, T> = Xyz::new(T::k(0.38), T::k(0.4), T::k(0.35));
+            let same = adaptation_matrix::<T, D65, D65, M>(Some(wc), Some(wc));
+            let r: Xyz<D65, T> = same.convert(c);
+            T::ensure("equal_explicit_white_points_identity", conj::<T>(&[abs_le(r.x, x, t6), abs_le(r.y, y, t6), abs_le(r.z, z, t6)]));
+            let there = adaptation_matrix::<T, D65, D50, M>(Some(wa), Some(wb));
+            let back = adaptation_matrix::<T, D50, D65, M>(Some(wb), Some(wa));
+            let adapted: Xyz<D50, T> = there.convert(c);
+            let restored: Xyz<D65, T> = back.convert(adapted);
+            T::ensure("there_and_back_explicit_white_points", conj::<T>(&[abs_le(restored.x, x, t6), abs_le(restored.y, y, t6), abs_le(restored.z, z, t6)]));
+            // the source white (Y = 0.5) maps onto the destination white's chromaticity, luminance preserved: wb * (0.5 / 0.75)
+            let w: Xyz<D50, T> = there.convert(wa);
+            let sc = T::k(0.5) / T::k(0.75);
+            T::ensure("white_to_white_chromaticity", conj::<T>(&[abs_le(w.x, T::k(0.7) * sc, t6), abs_le(w.y, T::k(0.5), t6), abs_le(w.z, T::k(0.5) * sc, t6)]));
+        });
+    };
+}
+adapt_explicit!(c14_adapt_explicit_bradford, Bradford, "Bradford");
+adapt_explicit!(c14_adapt_explicit_vonkries, VonKries, "von Kries");
+adapt_explicit!(c14_adapt_explicit_scaling, UnitMatrix, "XYZ scaling");
+
 pub fn all() -> Vec<crate::Prog> {
     vec![c14_white_srgb::prog(), c14_white_adobe::prog(), c14_white_rec709::prog(), c14_white_rec2020::prog(), c14_white_display_p3::prog(),
          c14_white_prophoto::prog(), c14_luv_white_d65::prog(), c14_luv_white_d50::prog(), c14_luv_white_a::prog(), c14_oklab_white::prog(),
          c14_adapt_d65_d50_bradford::prog(), c14_adapt_d65_d50_vonkries::prog(), c14_adapt_d65_d50_scaling::prog(), c14_adapt_a_d65_bradford::prog(),
-         c14_adapt_d50_e_vonkries::prog(), c14_adapt_f2_a_scaling::prog(), c14_adapt_e_f2_bradford::prog()]
+         c14_adapt_d50_e_vonkries::prog(), c14_adapt_f2_a_scaling::prog(), c14_adapt_e_f2_bradford::prog(),
+         c14_adapt_explicit_bradford::prog(), c14_adapt_explicit_vonkries::prog(), c14_adapt_explicit_scaling::prog()]
 }
